@@ -602,6 +602,9 @@ func (r *c06Rig) concretise(cs *c06Case, k int, rng *kit.Rng) c06Conc {
 	c.EncName = en[k%len(en)]
 	if cs.Sni == "random" {
 		c.SNI = []string{"random", "RANDOM", "Random"}[k%3]
+	} else if cs.Sni == "address" {
+		// an address literal is a legal ServerName; uTLS (RFC 6066) then sends no server_name extension at all
+		c.SNI = []string{"203.0.113.7", "2001:db8::1:7", "10.0.0.1"}[k%3]
 	} else {
 		c.SNI = []string{"www.bing.com", "d2jkinvisak5y9.cloudfront.net", "a.io", "xn--80ak6aa92e.com"}[k%4]
 	}
